@@ -5,7 +5,7 @@ from . import common, elfgen
 KEYS = ["res", "mdimg"]
 RULE = ("generated ELF32-BE executables: 1-4 PT_LOAD segments, interleaved non-load headers, arbitrary file offsets, shuffled sections, "
         ".got of 0-64 entries (also unaligned, values carrying into the top byte); distinct = distinct (layout signature, image)")
-SHARD_TIMEOUT = 900
+SHARD_TIMEOUT = 2400
 SALT = 11
 
 
